@@ -34,7 +34,8 @@ structure Admissible (b : Base) : Prop where
   noFrag : b.ipFrag = 0
 
 def layoutLen (l : List Nat) : Nat :=
-  (l.map fun k => if k = 1 then 1 else if k = 2 then 4 else if k = 3 then 3 else if k = 4 then 2 else 10).sum
+  (l.map fun k => if k = 1 then 1 else if k = 2 then 4 else if k = 3 then 3 else if k = 4 then 2
+    else if k = 5 ∨ k = 8 then 10 else 2).sum
 
 /-- the layout up to (not including) an EOL entry -/
 def bodyLayout (s : Sig) : List Nat := s.layout.takeWhile (· != 0)
@@ -46,8 +47,9 @@ def endsEol (s : Sig) : Bool := s.layout.contains 0
 structure Supported (s : Sig) (b : Base) : Prop where
   version : s.ipVer = none ∨ s.ipVer = some b.ipVer
   layoutShape : s.layout = bodyLayout s ++ (if endsEol s then [0] else [])
-  layoutPlain : ∀ k ∈ bodyLayout s, k = 1 ∨ k = 2 ∨ k = 3 ∨ k = 4 ∨ k = 8
-  aligned : (layoutLen (bodyLayout s) + (if endsEol s then 1 + s.eolPad else 0)) % 4 = 0
+  layoutPlain : ∀ k ∈ bodyLayout s, k ≤ 255
+  aligned : (∃ k ∈ bodyLayout s, stretchable k = true) ∨
+    (layoutLen (bodyLayout s) + (if endsEol s then 1 + s.eolPad else 0)) % 4 = 0
   eolPad0 : endsEol s = false → s.eolPad = 0
   olenV : (b.ipVer = 6 → s.olen = 0) ∧ s.olen % 4 = 0
   ttlOk : 1 ≤ s.ttl ∧ s.ttl ≤ 255
@@ -75,24 +77,36 @@ structure Supported (s : Sig) (b : Base) : Prop where
 
 /-! ### the option list for plain layouts -/
 
-def PlainKind (k : Nat) : Prop := k = 1 ∨ k = 2 ∨ k = 3 ∨ k = 4 ∨ k = 8
+/-- a layout entry before the EOL: nop, mss, ws, sok, ts, sack or a kind unknown to p0f -/
+def PlainKind (k : Nat) : Prop :=
+  k = 1 ∨ k = 2 ∨ k = 3 ∨ k = 4 ∨ k = 8 ∨ k = 5 ∨ (k ≠ 0 ∧ k ≠ 1 ∧ k ≠ 2 ∧ k ≠ 3 ∧ k ≠ 4 ∧ k ≠ 5 ∧ k ≠ 8)
+
+theorem plainKind_of_ne_zero (k : Nat) (h : k ≠ 0) : PlainKind k := by
+  unfold PlainKind; omega
+
+/-- as produced by `_impersonate_options`, before `_align_options`: SACK carries 8 zero bytes, an unknown kind none -/
+def SOpt.fresh : SOpt → Prop
+  | .sack n => n = 8
+  | .raw _ n => n = 0
+  | _ => True
 
 /-- one plain layout entry yields exactly one well-formed, non-EOL option of that kind -/
 theorem impOption_plain (s : Sig) (b : Base) (up : Option Int) (k : Nat) (c : Nat × Nat) (hk : PlainKind k)
     (hm : ∀ m, s.mss = some m → m < 65536) (hw : ∀ w, s.scale = some w → w < 256)
     (hok : optChoiceOk s b up k c = true) :
     ∃ o, impOption s b up k c = ([o], false) ∧ o.kind = k ∧ o ≠ .eol ∧ o.WF ∧
-      o.wireLen = (if k = 1 then 1 else if k = 2 then 4 else if k = 3 then 3 else if k = 4 then 2 else 10) := by
-  rcases hk with rfl | rfl | rfl | rfl | rfl
-  · exact ⟨.nop, by simp [impOption], rfl, by simp, trivial, rfl⟩
+      o.wireLen = (if k = 1 then 1 else if k = 2 then 4 else if k = 3 then 3 else if k = 4 then 2
+        else if k = 5 ∨ k = 8 then 10 else 2) ∧ o.fresh := by
+  rcases hk with rfl | rfl | rfl | rfl | rfl | rfl | ⟨k0, k1, k2, k3, k4, k5, k8⟩
+  · exact ⟨.nop, by simp [impOption], rfl, by simp, trivial, rfl, trivial⟩
   · -- MSS
     cases hs : s.mss with
     | some m =>
-      exact ⟨.mss m, by simp [impOption, hs], rfl, by simp, hm m hs, rfl⟩
+      exact ⟨.mss m, by simp [impOption, hs], rfl, by simp, hm m hs, rfl, trivial⟩
     | none =>
       cases hh : inRange (mssBounds s).1 (mssBounds s).2 b.mssHint with
       | some h =>
-        refine ⟨.mss h, ?_, rfl, by simp, ?_, rfl⟩
+        refine ⟨.mss h, ?_, rfl, by simp, ?_, rfl, trivial⟩
         · simp only [impOption, beq_self_eq_true, ↓reduceIte, hs]
           rw [show mssBounds s = ((mssBounds s).1, (mssBounds s).2) from rfl]
           simp only [hh]
@@ -118,7 +132,7 @@ theorem impOption_plain (s : Sig) (b : Base) (up : Option Int) (k : Nat) (c : Na
               omega
             · simp at hh
       | none =>
-        refine ⟨.mss c.1, ?_, rfl, by simp, ?_, rfl⟩
+        refine ⟨.mss c.1, ?_, rfl, by simp, ?_, rfl, trivial⟩
         · simp only [impOption, beq_self_eq_true, ↓reduceIte, hs]
           rw [show mssBounds s = ((mssBounds s).1, (mssBounds s).2) from rfl]
           simp only [hh]
@@ -138,12 +152,12 @@ theorem impOption_plain (s : Sig) (b : Base) (up : Option Int) (k : Nat) (c : Na
           omega
   · -- window scale
     cases hs : s.scale with
-    | some w => exact ⟨.ws w, by simp [impOption, hs], rfl, by simp, hw w hs, rfl⟩
+    | some w => exact ⟨.ws w, by simp [impOption, hs], rfl, by simp, hw w hs, rfl, trivial⟩
     | none =>
       by_cases he : s.quirks .exws = true
       · cases hh : inRange 15 255 b.wsHint with
         | some h =>
-          refine ⟨.ws h, by simp [impOption, hs, he, hh], rfl, by simp, ?_, rfl⟩
+          refine ⟨.ws h, by simp [impOption, hs, he, hh], rfl, by simp, ?_, rfl, trivial⟩
           simp only [SOpt.WF]
           cases hb : b.wsHint with
           | none => simp [hb, inRange] at hh
@@ -153,13 +167,13 @@ theorem impOption_plain (s : Sig) (b : Base) (up : Option Int) (k : Nat) (c : Na
             · simp only [Option.some.injEq] at hh; omega
             · simp at hh
         | none =>
-          refine ⟨.ws c.1, by simp [impOption, hs, he, hh], rfl, by simp, ?_, rfl⟩
+          refine ⟨.ws c.1, by simp [impOption, hs, he, hh], rfl, by simp, ?_, rfl, trivial⟩
           have : 15 ≤ c.1 ∧ c.1 ≤ 255 := by simpa [optChoiceOk, hs, he, hh] using hok
           simp only [SOpt.WF]; omega
       · have he' : s.quirks .exws = false := by simpa using he
         cases hh : inRange 0 14 b.wsHint with
         | some h =>
-          refine ⟨.ws h, by simp [impOption, hs, he', hh], rfl, by simp, ?_, rfl⟩
+          refine ⟨.ws h, by simp [impOption, hs, he', hh], rfl, by simp, ?_, rfl, trivial⟩
           simp only [SOpt.WF]
           cases hb : b.wsHint with
           | none => simp [hb, inRange] at hh
@@ -169,12 +183,12 @@ theorem impOption_plain (s : Sig) (b : Base) (up : Option Int) (k : Nat) (c : Na
             · simp only [Option.some.injEq] at hh; omega
             · simp at hh
         | none =>
-          refine ⟨.ws c.1, by simp [impOption, hs, he', hh], rfl, by simp, ?_, rfl⟩
+          refine ⟨.ws c.1, by simp [impOption, hs, he', hh], rfl, by simp, ?_, rfl, trivial⟩
           have : c.1 ≤ 14 := by simpa [optChoiceOk, hs, he', hh] using hok
           simp only [SOpt.WF]; omega
-  · exact ⟨.sackok, by simp [impOption], rfl, by simp, trivial, rfl⟩
+  · exact ⟨.sackok, by simp [impOption], rfl, by simp, trivial, rfl, trivial⟩
   · -- timestamps
-    refine ⟨_, by simp only [impOption]; rfl, rfl, by simp, ?_, rfl⟩
+    refine ⟨_, by simp only [impOption]; rfl, rfl, by simp, ?_, rfl, by simp [SOpt.fresh]⟩
     simp only [SOpt.WF]
     have inRange_lt : ∀ (lo : Int) (h : Option Int) (v : Nat), inRange lo 4294967295 h = some v → v < 4294967296 := by
       intro lo h v hv
@@ -220,6 +234,17 @@ theorem impOption_plain (s : Sig) (b : Base) (up : Option Int) (k : Nat) (c : Na
       · cases h2 : inRange 0 4294967295 b.ts2Hint with
         | some h => simp only; exact inRange_lt _ _ _ h2
         | none => simp
+  · exact ⟨.sack 8, by simp [impOption], rfl, by simp, by simp [SOpt.WF], rfl, rfl⟩
+  · have b0 : (k == 0) = false := by simpa using k0
+    have b1 : (k == 1) = false := by simpa using k1
+    have b2 : (k == 2) = false := by simpa using k2
+    have b3 : (k == 3) = false := by simpa using k3
+    have b4 : (k == 4) = false := by simpa using k4
+    have b5 : (k == 5) = false := by simpa using k5
+    have b8 : (k == 8) = false := by simpa using k8
+    refine ⟨.raw k 0, by simp [impOption, b0, b1, b2, b3, b4, b5, b8], rfl, by simp, ?_, ?_, rfl⟩
+    · simp only [SOpt.WF]; omega
+    · simp [SOpt.wireLen, SOpt.encode, k1, k2, k3, k4, k5, k8]
 
 /-- the whole option list for a plain layout: one well-formed option per layout entry, in order -/
 theorem plain_options (s : Sig) (b : Base) (up : Option Int) (L : List Nat) (cs : List (Nat × Nat))
@@ -228,24 +253,25 @@ theorem plain_options (s : Sig) (b : Base) (up : Option Int) (L : List Nat) (cs 
     (impOptionsGo s b up L cs).map SOpt.kind = L ∧ (∀ o ∈ impOptionsGo s b up L cs, o.WF) ∧
       (∀ o ∈ impOptionsGo s b up L cs, o ≠ .eol) ∧
       ((impOptionsGo s b up L cs).map SOpt.wireLen).sum = layoutLen L ∧
-      (∀ o ∈ impOptionsGo s b up L cs, ∃ k c, k ∈ L ∧ impOption s b up k c = ([o], false) ∧ optChoiceOk s b up k c = true) := by
+      (∀ o ∈ impOptionsGo s b up L cs, ∃ k c, k ∈ L ∧ impOption s b up k c = ([o], false) ∧ optChoiceOk s b up k c = true) ∧
+      (∀ o ∈ impOptionsGo s b up L cs, o.fresh) := by
   induction L generalizing cs with
   | nil => simp [impOptionsGo, layoutLen]
   | cons k ks ih =>
     have hk : PlainKind k := hL k (by simp)
     simp only [optChoicesOkGo, Bool.and_eq_true, Bool.or_eq_true, beq_iff_eq] at hok
     obtain ⟨hok1, hok2⟩ := hok
-    have hk0 : k ≠ 0 := by rcases hk with h | h | h | h | h <;> omega
+    have hk0 : k ≠ 0 := by unfold PlainKind at hk; omega
     have hok2' : optChoicesOkGo s b up ks cs.tail = true := by
       rcases hok2 with h | h
       · exact absurd h hk0
       · exact h
-    obtain ⟨o, ho, hkind, hne, hwf, hlen⟩ := impOption_plain s b up k (cs.headD (0, 0)) hk hm hw hok1
-    obtain ⟨i1, i2, i3, i4, i5⟩ := ih cs.tail (fun x hx => hL x (by simp [hx])) hok2'
+    obtain ⟨o, ho, hkind, hne, hwf, hlen, hfresh⟩ := impOption_plain s b up k (cs.headD (0, 0)) hk hm hw hok1
+    obtain ⟨i1, i2, i3, i4, i5, i6⟩ := ih cs.tail (fun x hx => hL x (by simp [hx])) hok2'
     have hgo : impOptionsGo s b up (k :: ks) cs = o :: impOptionsGo s b up ks cs.tail := by
       simp only [impOptionsGo, ho, Bool.false_eq_true, ↓reduceIte, List.cons_append, List.nil_append]
     rw [hgo]
-    refine ⟨by simp [hkind, i1], ?_, ?_, ?_, ?_⟩
+    refine ⟨by simp [hkind, i1], ?_, ?_, ?_, ?_, ?_⟩
     · intro x hx
       simp only [List.mem_cons] at hx
       rcases hx with rfl | hx
@@ -263,6 +289,11 @@ theorem plain_options (s : Sig) (b : Base) (up : Option Int) (L : List Nat) (cs 
       · exact ⟨k, _, by simp, ho, hok1⟩
       · obtain ⟨k', c', hk', h1, h2⟩ := i5 x hx
         exact ⟨k', c', by simp [hk'], h1, h2⟩
+    · intro x hx
+      simp only [List.mem_cons] at hx
+      rcases hx with rfl | hx
+      · exact hfresh
+      · exact i6 x hx
 
 /-! ### the quirk set extraction reports, quirk by quirk -/
 
@@ -674,6 +705,130 @@ theorem tailOpts_wireLen (s : Sig) :
   rw [← flatMap_encode_length, tailOpts_bytes]
   split <;> simp <;> omega
 
+/-! ### `_align_options`: the first SACK / unknown-kind option absorbs the missing bytes -/
+
+def SOpt.stretchy : SOpt → Bool
+  | .sack _ => true
+  | .raw _ _ => true
+  | _ => false
+
+theorem stretchFirst_zero (l : List SOpt) : stretchFirst 0 l = l := by
+  induction l with
+  | nil => rfl
+  | cons o t ih => cases o <;> simp [stretchFirst, ih]
+
+theorem alignOptions_eq (l : List SOpt) :
+    alignOptions l = stretchFirst ((4 - (l.map SOpt.wireLen).sum % 4) % 4) l := by
+  unfold alignOptions
+  simp only
+  split
+  · rename_i h
+    have : (4 - (l.map SOpt.wireLen).sum % 4) % 4 = 0 := by simpa using h
+    rw [this, stretchFirst_zero]
+  · rfl
+
+theorem stretchFirst_of_none (m : Nat) (l : List SOpt) (h : l.any SOpt.stretchy = false) : stretchFirst m l = l := by
+  induction l with
+  | nil => rfl
+  | cons o t ih =>
+    simp only [List.any_cons, Bool.or_eq_false_iff] at h
+    cases o <;> simp [stretchFirst, SOpt.stretchy, ih h.2] at h ⊢
+
+theorem stretchFirst_append_of_any (m : Nat) (l t : List SOpt) (h : l.any SOpt.stretchy = true) :
+    stretchFirst m (l ++ t) = stretchFirst m l ++ t := by
+  induction l with
+  | nil => simp at h
+  | cons o r ih =>
+    cases o with
+    | sack n => simp [stretchFirst]
+    | raw k n => simp [stretchFirst]
+    | _ =>
+      simp only [List.any_cons, SOpt.stretchy, Bool.false_or] at h
+      simp [stretchFirst, ih h]
+
+theorem stretchFirst_wireLen (m : Nat) (l : List SOpt) (h : l.any SOpt.stretchy = true) :
+    ((stretchFirst m l).map SOpt.wireLen).sum = (l.map SOpt.wireLen).sum + m := by
+  induction l with
+  | nil => simp at h
+  | cons o r ih =>
+    cases o with
+    | sack n => simp [stretchFirst, SOpt.wireLen, SOpt.encode]; omega
+    | raw k n => simp [stretchFirst, SOpt.wireLen, SOpt.encode]; omega
+    | _ =>
+      simp only [List.any_cons, SOpt.stretchy, Bool.false_or] at h
+      simp [stretchFirst, ih h]
+      omega
+
+theorem stretchFirst_foldl (isSyn : Bool) (m : Nat) (l : List SOpt) (st : Opts) :
+    (stretchFirst m l).foldl (fun st x => stepOpt isSyn x st) st = l.foldl (fun st x => stepOpt isSyn x st) st := by
+  induction l generalizing st with
+  | nil => rfl
+  | cons o r ih =>
+    cases o with
+    | sack n => simp only [stretchFirst, List.foldl_cons]; rfl
+    | raw k n => simp only [stretchFirst, List.foldl_cons]; rfl
+    | _ => simp only [stretchFirst, List.foldl_cons]; exact ih _
+
+theorem stretchFirst_wf (m : Nat) (hm : m ≤ 3) (l : List SOpt) (hwf : ∀ o ∈ l, o.WF) (hfr : ∀ o ∈ l, o.fresh) :
+    ∀ o ∈ stretchFirst m l, o.WF := by
+  induction l with
+  | nil => intro o ho; simp [stretchFirst] at ho
+  | cons x r ih =>
+    have ihr := ih (fun o ho => hwf o (by simp [ho])) (fun o ho => hfr o (by simp [ho]))
+    have hx := hwf x (by simp)
+    have hf := hfr x (by simp)
+    cases x with
+    | sack n =>
+      intro o ho
+      simp only [stretchFirst, List.mem_cons] at ho
+      rcases ho with rfl | ho
+      · simp only [SOpt.fresh] at hf; simp only [SOpt.WF]; omega
+      · exact hwf o (by simp [ho])
+    | raw k n =>
+      intro o ho
+      simp only [stretchFirst, List.mem_cons] at ho
+      rcases ho with rfl | ho
+      · simp only [SOpt.fresh] at hf; simp only [SOpt.WF] at hx ⊢; omega
+      · exact hwf o (by simp [ho])
+    | _ =>
+      intro o ho
+      simp only [stretchFirst, List.mem_cons] at ho
+      rcases ho with rfl | ho
+      · exact hx
+      · exact ihr o ho
+
+theorem stretchFirst_ne_eol (m : Nat) (l : List SOpt) (h : ∀ o ∈ l, o ≠ .eol) : ∀ o ∈ stretchFirst m l, o ≠ .eol := by
+  induction l with
+  | nil => intro o ho; simp [stretchFirst] at ho
+  | cons x r ih =>
+    have ihr := ih (fun o ho => h o (by simp [ho]))
+    have hx := h x (by simp)
+    cases x with
+    | sack n =>
+      intro o ho
+      simp only [stretchFirst, List.mem_cons] at ho
+      rcases ho with rfl | ho
+      · simp
+      · exact h o (by simp [ho])
+    | raw k n =>
+      intro o ho
+      simp only [stretchFirst, List.mem_cons] at ho
+      rcases ho with rfl | ho
+      · simp
+      · exact h o (by simp [ho])
+    | _ =>
+      intro o ho
+      simp only [stretchFirst, List.mem_cons] at ho
+      rcases ho with rfl | ho
+      · exact hx
+      · exact ihr o ho
+
+theorem stretchFirst_lastMss (m : Nat) (l : List SOpt) (acc : Option Nat) :
+    (stretchFirst m l).foldl lastMssStep acc = l.foldl lastMssStep acc := by
+  induction l generalizing acc with
+  | nil => rfl
+  | cons o r ih => cases o <;> simp [stretchFirst, lastMssStep, ih]
+
 theorem run_facts (s : Sig) (b : Base) (hops : Int) (mtu : Nat) (up : Option Int) (c : Choices)
     (hsup : Supported s b) (hc : choicesOk s b up c = true) :
     ∃ o, RunFacts s b hops mtu up c o := by
@@ -684,37 +839,80 @@ theorem run_facts (s : Sig) (b : Base) (hops : Int) (mtu : Nat) (up : Option Int
   have hokL : optChoicesOkGo s b up (bodyLayout s) c.opt = true := by
     rw [hsup.layoutShape] at hokL0
     exact optChoicesOkGo_append_left s b up _ _ _ (bodyLayout_ne_zero s) hokL0
-  obtain ⟨i1, i2, i3, i4, i5⟩ := plain_options s b up (bodyLayout s) c.opt hsup.layoutPlain hsup.mssFits hsup.scaleFits hokL
+  obtain ⟨i1, i2, i3, i4, i5, i6⟩ := plain_options s b up (bodyLayout s) c.opt
+    (fun k hk => plainKind_of_ne_zero k (bodyLayout_ne_zero s k hk)) hsup.mssFits hsup.scaleFits hokL
   -- the whole list: the options before EOL, then EOL and its padding
   have hgo : impOptionsGo s b up s.layout c.opt = bodyOpts s b up c ++ tailOpts s := by
     rw [hsup.layoutShape, impOptionsGo_append _ _ _ _ _ _ (bodyLayout_ne_zero s)]
     unfold bodyOpts tailOpts
     congr 1
     cases h : endsEol s <;> simp [impOptionsGo, impOption]
-  have hlen : ((bodyOpts s b up c ++ tailOpts s).map SOpt.wireLen).sum % 4 = 0 := by
-    rw [List.map_append, List.sum_append, tailOpts_wireLen]
-    unfold bodyOpts
-    rw [i4]
-    exact hsup.aligned
-  -- no stretching, no padding: the options fill a multiple of four bytes
-  have hopts : impOptions s b up c = bodyOpts s b up c ++ tailOpts s := by
-    unfold impOptions alignOptions
-    rw [hgo]
-    simp only [hlen]
-    rfl
-  have henc : encodeOpts (bodyOpts s b up c ++ tailOpts s) =
-      (bodyOpts s b up c).flatMap SOpt.encode ++ (tailOpts s).flatMap SOpt.encode := by
+  -- alignment: the first SACK / unknown-kind option (if any) absorbs the missing bytes; otherwise the layout is aligned
+  obtain ⟨missing, hmissing⟩ : ∃ m, m = (4 - ((bodyOpts s b up c ++ tailOpts s).map SOpt.wireLen).sum % 4) % 4 := ⟨_, rfl⟩
+  have hm3 : missing ≤ 3 := by omega
+  obtain ⟨body', hbody'⟩ : ∃ l, l = stretchFirst missing (bodyOpts s b up c) := ⟨_, rfl⟩
+  have htail_ns : (tailOpts s).any SOpt.stretchy = false := by
+    unfold tailOpts
+    split
+    · simp only [List.any_cons, SOpt.stretchy, Bool.false_or]
+      rw [List.any_eq_false]
+      intro x hx
+      rw [List.mem_replicate] at hx
+      obtain ⟨_, rfl⟩ := hx
+      split <;> simp [SOpt.stretchy]
+    · rfl
+  have hsplit : impOptions s b up c = body' ++ tailOpts s ∧ ((body' ++ tailOpts s).map SOpt.wireLen).sum % 4 = 0 := by
+    unfold impOptions
+    rw [alignOptions_eq, hgo, ← hmissing]
+    cases hany : (bodyOpts s b up c).any SOpt.stretchy with
+    | true =>
+      rw [stretchFirst_append_of_any _ _ _ hany, ← hbody']
+      refine ⟨rfl, ?_⟩
+      rw [hbody', List.map_append, List.sum_append, stretchFirst_wireLen _ _ hany]
+      rw [List.map_append, List.sum_append] at hmissing
+      omega
+    | false =>
+      -- nothing to stretch: the signature's layout fills a multiple of four bytes by itself
+      have hal : (layoutLen (bodyLayout s) + if endsEol s = true then 1 + s.eolPad else 0) % 4 = 0 := by
+        rcases hsup.aligned with ⟨k, hk, hst⟩ | h
+        · exfalso
+          obtain ⟨x, hx, hxk⟩ := mem_of_kind_mem (bodyOpts s b up c) k
+            (by show k ∈ (impOptionsGo s b up (bodyLayout s) c.opt).map SOpt.kind; rw [i1]; exact hk)
+          have hxs : x.stretchy = false := by
+            rw [List.any_eq_false] at hany
+            simpa using hany x hx
+          have hne := i3 x hx
+          simp only [stretchable, Bool.and_eq_true, bne_iff_ne, ne_eq] at hst
+          cases x <;> simp [SOpt.kind, SOpt.stretchy] at hxk hxs hne <;> omega
+        · exact h
+      have htot : ((bodyOpts s b up c ++ tailOpts s).map SOpt.wireLen).sum % 4 = 0 := by
+        rw [List.map_append, List.sum_append, tailOpts_wireLen]
+        unfold bodyOpts
+        rw [i4]
+        exact hal
+      have hm0 : missing = 0 := by omega
+      have hb : body' = bodyOpts s b up c := by rw [hbody', stretchFirst_of_none _ _ hany]
+      have : (bodyOpts s b up c ++ tailOpts s).any SOpt.stretchy = false := by
+        rw [List.any_append, hany, htail_ns]; rfl
+      rw [stretchFirst_of_none _ _ this, hb]
+      exact ⟨rfl, htot⟩
+  obtain ⟨hopts, hlen⟩ := hsplit
+  have i2' : ∀ o ∈ body', o.WF := by rw [hbody']; exact stretchFirst_wf missing hm3 _ i2 i6
+  have i3' : ∀ o ∈ body', o ≠ .eol := by rw [hbody']; exact stretchFirst_ne_eol missing _ i3
+  have hfold : ∀ isSyn st, body'.foldl (fun st x => stepOpt isSyn x st) st =
+      (bodyOpts s b up c).foldl (fun st x => stepOpt isSyn x st) st := by
+    intro isSyn st; rw [hbody']; exact stretchFirst_foldl isSyn missing _ st
+  have henc : encodeOpts (body' ++ tailOpts s) =
+      body'.flatMap SOpt.encode ++ (tailOpts s).flatMap SOpt.encode := by
     unfold encodeOpts
     simp only [flatMap_encode_length, hlen]
     simp
-  have hparsed : ∀ isSyn, parseOpts (encodeOpts (bodyOpts s b up c ++ tailOpts s)) isSyn =
+  have hparsed : ∀ isSyn, parseOpts (encodeOpts (body' ++ tailOpts s)) isSyn =
       finishOpts s ((bodyOpts s b up c).foldl (fun st x => stepOpt isSyn x st) Opts.init) := by
     intro isSyn
     rw [henc]
     unfold parseOpts
-    have i2' : ∀ o ∈ bodyOpts s b up c, o.WF := i2
-    have i3' : ∀ o ∈ bodyOpts s b up c, o ≠ .eol := i3
-    rw [parseOptsGo_encode_list isSyn _ i2' i3', tailOpts_bytes]
+    rw [parseOptsGo_encode_list isSyn _ i2' i3', tailOpts_bytes, hfold]
     unfold finishOpts
     split
     · rw [parseOptsGo_eol]
@@ -732,6 +930,9 @@ theorem run_facts (s : Sig) (b : Base) (hops : Int) (mtu : Nat) (up : Option Int
           rw [List.mem_replicate] at hx
           simp [hx.2]
     · rw [parseOptsGo_nil]
+  have hlm : lastMss (body' ++ tailOpts s) = lastMss (bodyOpts s b up c ++ tailOpts s) := by
+    unfold lastMss
+    rw [List.foldl_append, List.foldl_append, hbody', stretchFirst_lastMss]
   -- the window
   have hwin : ∃ win, impWindow s b (impOptions s b up c) mtu c = .ok win ∧
       (s.wtype = .normal → win = s.wsize) ∧ (s.wtype = .mod → win = s.wsize * c.winMul) ∧
@@ -740,6 +941,7 @@ theorem run_facts (s : Sig) (b : Base) (hops : Int) (mtu : Nat) (up : Option Int
       (s.wtype = .any → win = b.window) := by
     rw [hopts]
     unfold impWindow
+    rw [hlm]
     cases hw : s.wtype with
     | normal => exact ⟨_, rfl, by simp, by simp, by simp, by simp⟩
     | mod => exact ⟨_, rfl, by simp, by simp, by simp, by simp⟩
@@ -845,7 +1047,7 @@ theorem run_opt_quirks (s : Sig) (b : Base) (hops : Int) (mtu : Nat) (up : Optio
   have hshape : ∀ x ∈ bodyOpts s b up c, (x.kind = 3 → ∃ v, x = .ws v) ∧ (x.kind = 8 → ∃ a t, x = .ts a t) := by
     intro x hx
     obtain ⟨k, c', hk, hio, hok⟩ := hr.facts x hx
-    obtain ⟨o'', ho'', hk'', _, hwf, _⟩ := impOption_plain s b up k c' (hsup.layoutPlain k hk) hsup.mssFits hsup.scaleFits hok
+    obtain ⟨o'', ho'', hk'', _, hwf, _⟩ := impOption_plain s b up k c' (plainKind_of_ne_zero k (bodyLayout_ne_zero s k hk)) hsup.mssFits hsup.scaleFits hok
     rw [hio] at ho''
     have : x = o'' := (List.cons.inj (Prod.mk.inj ho'').1).1
     subst this
@@ -1291,7 +1493,7 @@ theorem imp_exact_partial (s : Sig) (b : Base) (hops d : Int) (mtu : Nat) (up : 
       · rcases hsup.mssCoherent m hm with h2' | h0
         · obtain ⟨x, hx, hxk⟩ := hkindMem 2 h2' (by decide)
           obtain ⟨k, c', hk, hio, hok⟩ := hr.facts x hx
-          obtain ⟨o'', ho'', _, _, hwf, _⟩ := impOption_plain s b up k c' (hsup.layoutPlain k hk) hsup.mssFits hsup.scaleFits hok
+          obtain ⟨o'', ho'', _, _, hwf, _⟩ := impOption_plain s b up k c' (plainKind_of_ne_zero k (bodyLayout_ne_zero s k hk)) hsup.mssFits hsup.scaleFits hok
           rw [hio] at ho''
           have hxe : x = o'' := (List.cons.inj (Prod.mk.inj ho'').1).1
           subst hxe
@@ -1307,7 +1509,7 @@ theorem imp_exact_partial (s : Sig) (b : Base) (hops d : Int) (mtu : Nat) (up : 
       · rcases hsup.scaleCoherent w hw with h2' | h0
         · obtain ⟨x, hx, hxk⟩ := hkindMem 3 h2' (by decide)
           obtain ⟨k, c', hk, hio, hok⟩ := hr.facts x hx
-          obtain ⟨o'', ho'', _, _, hwf, _⟩ := impOption_plain s b up k c' (hsup.layoutPlain k hk) hsup.mssFits hsup.scaleFits hok
+          obtain ⟨o'', ho'', _, _, hwf, _⟩ := impOption_plain s b up k c' (plainKind_of_ne_zero k (bodyLayout_ne_zero s k hk)) hsup.mssFits hsup.scaleFits hok
           rw [hio] at ho''
           have hxe : x = o'' := (List.cons.inj (Prod.mk.inj ho'').1).1
           subst hxe
@@ -1471,16 +1673,13 @@ theorem supportedB_sound (s : Sig) (b : Base) (h : supportedB s b = true) : Supp
     | some v => right; simp [hv] at a1; rw [a1]
   · intro k hk
     have := List.all_eq_true.mp a2 k hk
-    simp only [Bool.or_eq_true, beq_iff_eq] at this
-    rcases this with (((h | h) | h) | h) | h
-    · exact Or.inl h
-    · exact Or.inr (Or.inl h)
-    · exact Or.inr (Or.inr (Or.inl h))
-    · exact Or.inr (Or.inr (Or.inr (Or.inl h)))
-    · exact Or.inr (Or.inr (Or.inr (Or.inr h)))
-  · have := a3
-    simp only [beq_iff_eq] at this
-    exact this
+    simpa using this
+  · simp only [Bool.or_eq_true, beq_iff_eq] at a3
+    rcases a3 with h | h
+    · left
+      obtain ⟨k, hk, hst⟩ := List.any_eq_true.mp h
+      exact ⟨k, hk, hst⟩
+    · right; exact h
   · intro he
     have he' : s.layout.contains 0 = false := he
     simp only [he', Bool.false_or, beq_iff_eq] at a4
@@ -1551,5 +1750,21 @@ theorem imp_exact_of_checks (s : Sig) (b : Base) (hops d : Int) (mtu : Nat) (up 
     ∃ o, impTcp s b hops mtu up c = .ok o ∧ tcpMatchPkt s (extractOut o) d = some .exact ∧
       (s.ttl : Int) - ((extractOut o).ttl : Int) = hops :=
   imp_exact_partial s b hops d mtu up c (admissibleB_sound b h1) (supportedB_sound s b h2) h3 hh0 hh1 hh2
+
+/-! non-vacuity for the stretched layouts: `mss,sok,sack,?77` is 18 bytes long, so `_align_options` adds two bytes to the
+    SACK option; the theorem applies (hypotheses evaluated as Booleans) -/
+def exSig2 : Sig :=
+  { ipVer := some 4, olen := 0, ttl := 128, badTtl := false, wtype := .normal, wsize := 8192, scale := none,
+    layout := [2, 4, 5, 77], mss := some 1460, eolPad := 0, payClass := none, quirks := QSet.ofList [.df, .nzId] }
+
+def exChoices2 : Choices :=
+  { id := 9, fl := 1, ecn := 1, seq := 1, ack := 1, urp := 1, winMul := 1, payload := [], opt := [] }
+
+example : (impOptions exSig2 exBase none exChoices2) = [.mss 1460, .sackok, .sack 10, .raw 77 0] := by decide +kernel
+
+example : ∃ o, impTcp exSig2 exBase 0 1500 none exChoices2 = .ok o ∧ tcpMatchPkt exSig2 (extractOut o) 35 = some .exact ∧
+    (exSig2.ttl : Int) - ((extractOut o).ttl : Int) = 0 :=
+  imp_exact_of_checks exSig2 exBase 0 35 1500 none exChoices2 (by decide +kernel) (by decide +kernel) (by decide +kernel)
+    (by decide) (by decide) (by decide)
 
 end P0f
